@@ -1,2 +1,9 @@
 import SpoxModel.Props.C07
 /-! `#print axioms` for every property theorem of C07; parsed by ./check. -/
+#print axioms C07.step_inv
+#print axioms C07.kept_value_conforms
+#print axioms C07.value_is_input_independent
+#print axioms C07.mapping_correct
+#print axioms C07.constant_propagation_exact
+#print axioms C07.fold_correct_partial
+#print axioms C07.kept_value_conforms_counterexample
